@@ -17,7 +17,7 @@ def push_table(chk, F, rule, cfg):
     for fn in F.fns.values():
         for p_ in ([fn] + fn.promoted):
             for bb, t in p_.calls(include_cleanup=True):
-                if re.search(r'BTreeMap::(entry|insert|get_mut|remove|retain|clear|append|extend|first_entry|last_entry|pop_first|pop_last|values_mut|iter_mut)$|Extend>?::extend$', symex.callee_name(t)):
+                if re.search(r'::(entry|insert|get_mut|remove|retain|clear|append|extend|first_entry|last_entry|pop_first|pop_last|values_mut|iter_mut)$|Extend>?::extend$', symex.callee_name(t)):      # (on the map itself or on a wrapper around it)
                     for a in t['args'][:1]:
                         pl = a.get('mv') or a.get('cp')
                         # the receiver is (a reborrow of) the fn_mockers field: resolve through the body's ref assignments
@@ -144,7 +144,7 @@ def append_only_lists(chk, F, rule, cfg):
                                 chk.ob(rule, '%s.%s is append-only' % (adt, field), False, config=cfg, fn=fn, site='mutate:%s' % name, what='list reordered/shrunk: %s' % name.rsplit('::', 1)[-1], found=name,
                                        expected='Vec::push only')
                             elif re.search(r'Vec::push$|<impl \[T\]>::last_mut$|DerefMut>?::deref_mut$|::iter_mut$', name):
-                                ok = bool(re.search(writers, fn.defp)) or not name.endswith('::push')
+                                ok = all(re.search(writers, o) for o in L.owners_of(F, fn)) or not name.endswith('::push')     # (an extracted helper counts for its callers)
                                 chk.ob(rule, '%s.%s grows only in its builder (%s)' % (adt, field, name.rsplit('::', 1)[-1]), ok, config=cfg, fn=fn, site='mutate:%s' % name, what='push outside the builder', found=fn.defp)
                             else:
                                 chk.ob(rule, 'mutable use of %s.%s is known' % (adt, field), False, config=cfg, fn=fn, site='mutate:%s' % name, unrecognised=True, what='unknown mutation %s' % name, found=name)
